@@ -34,7 +34,7 @@ def run(ctx, mod, repo):
         if not new:
             ctx.ok('CFG', 'features=' + feat, '', 'all %d obligations have the same verdict under cargo feature %s' % (len(sub.obs), feat), nontrivial=False)
     corpus = json.load(open(os.path.join(VERIF, 'mutants', 'corpus.json')))['mutants'].get(ctx.prop, [])
-    if corpus:
+    if corpus or os.path.isdir(os.path.join(VERIF, 'seeded')):
         scratch = tempfile.mkdtemp(prefix='verif-thorough-%s-' % ctx.prop)
         try:
             subprocess.run(['rsync', '-a', '--exclude', 'target', '--exclude', '.git', repo.rstrip('/') + '/', scratch + '/'], check=True)
@@ -63,6 +63,33 @@ def run(ctx, mod, repo):
                     ctx.ok('MUT', 'caught:' + m['name'], m['file'], 'mutant `%s` is reported by %s' % (m['name'], hits[:3]), nontrivial=True)
                 else:
                     misses.append((m['name'], anyhit))
+            # the independently seeded changes confirmed for this property (seeded/<id>/patch.diff) are
+            # part of the corpus: each must be reported by at least one rule of this property's check
+            sd = os.path.join(VERIF, 'seeded')
+            for sid in sorted(os.listdir(sd)) if os.path.isdir(sd) else []:
+                mp = os.path.join(sd, sid, 'meta.json')
+                pp = os.path.join(sd, sid, 'patch.diff')
+                if not (os.path.exists(mp) and os.path.exists(pp)) or json.load(open(mp)).get('property') != ctx.prop:
+                    continue
+                if subprocess.run(['git', 'apply', '--check', pp], cwd=scratch, capture_output=True).returncode != 0:
+                    report['mutants'].append({'name': 'seeded:' + sid, 'status': 'stale'})
+                    ctx.ok('MUT', 'stale:seeded:' + sid, '', 'seeded change no longer applies to the current tree: skipped, not counted', nontrivial=False)
+                    continue
+                subprocess.run(['git', 'apply', pp], cwd=scratch, check=True)
+                try:
+                    d, info = extract(scratch)
+                    sub = Ctx(ctx.prop, Program(d), 'thorough')
+                    mod.run(sub)
+                    hits = sorted('%s:%s' % k for k, o in _open(sub).items() if k not in base_open)
+                except CheckBroken as e:
+                    hits = []
+                finally:
+                    subprocess.run(['git', 'apply', '-R', pp], cwd=scratch, check=True)
+                report['mutants'].append({'name': 'seeded:' + sid, 'reported': hits})
+                if hits:
+                    ctx.ok('MUT', 'caught:seeded:' + sid, '', 'seeded change %s is reported by %s' % (sid, hits[:3]), nontrivial=True)
+                else:
+                    misses.append(('seeded:' + sid, []))
             if misses:
                 raise CheckBroken('sensitivity corpus: mutant(s) not reported by the expected rule: %s' % misses)
         finally:
